@@ -9,8 +9,9 @@ From CNV Require Import Base.Prelude Base.QNum Proofs.QNumLemmas Gen.DescDefault
   Proofs.DescriptivesWMedian Proofs.DescriptivesWMedianEqual Proofs.DescriptivesShift
   Proofs.DescriptivesWMedianTop Proofs.DescriptivesScale Proofs.DescriptivesBiweight
   Proofs.Smoothing Proofs.SmoothingSavgol Proofs.DescriptivesMore Proofs.DescriptivesBivar
-  Proofs.SmoothingWeighted.
-From Coq Require Import Qabs.
+  Proofs.SmoothingWeighted Proofs.DescriptivesLib Proofs.DescriptivesWMedianPos Proofs.SmoothingMore
+  Gen.FnDescriptives Gen.FnSmoothing Proofs.FnDescriptives.
+From Coq Require Import Qabs Qround.
 Local Open Scope Q_scope.
 
 (* ========================================================================== *)
@@ -125,6 +126,52 @@ Proof.
   - vm_compute. discriminate.
 Qed.
 
+(* The sharp positive version: with strictly positive weights and no near-tie the weighted
+   median is a function of the multiset -- [wm_determined] has at most one solution, and the
+   search returns it on EVERY arrangement sorted by value. *)
+Theorem C19_wmedian_unique : forall ps m m',
+  pos_weights ps -> wm_determined m ps -> wm_determined m' ps -> m == m'.
+Proof. exact wm_determined_unique. Qed.
+Theorem C19_wmedian_determined : forall ps,
+  sorted_by_value ps -> pos_weights ps -> ps <> [] -> wm_no_near_tie ps -> wm_determined (wmedian_sorted ps) ps.
+Proof. exact wmedian_sorted_determined. Qed.
+Theorem C19_wmedian_perm_positive : forall ps r r' : list (Q * Q),
+  Permutation r ps -> Permutation r' ps -> sorted_by_value r -> sorted_by_value r' ->
+  pos_weights ps -> ps <> [] -> wm_no_near_tie r -> wm_no_near_tie r' ->
+  wmedian_sorted r == wmedian_sorted r'.
+Proof. exact wmedian_perm_positive. Qed.
+(* hence equivariant under every non-zero rescaling of the values, negative ones included
+   (with a zero weight on the tie it is not: weighted_median([0,0,1,2],[2,0,2,0]) = 0,
+   weighted_median([0,0,-1,-2],[2,0,2,0]) = -0.5) *)
+Theorem C19_wmedian_scale_positive : forall k ps, ~ k == 0 -> pos_weights ps -> ps <> [] ->
+  wm_no_near_tie (psort ps) -> wm_no_near_tie (psort (scale_values k ps)) ->
+  wmedian_sorted (psort (scale_values k ps)) == k * wmedian_sorted (psort ps).
+Proof. exact wmedian_psort_scale. Qed.
+
+Example C19_wmedian_determined_example :
+  wm_no_near_tie_b (psort [(3, 1); (1, 2); (2, 1); (5, 1 # 2); (4, 1 # 2)]) = true /\
+  wmedian_sorted (psort [(3, 1); (1, 2); (2, 1); (5, 1 # 2); (4, 1 # 2)]) == 2 /\
+  wmedian_sorted (psort (scale_values (-3) [(3, 1); (1, 2); (2, 1); (5, 1 # 2); (4, 1 # 2)])) == -6.
+Proof. vm_compute. repeat split. Qed.
+
+(* No contract hypothesis is left for the arrangement: the model's own stable sort is a sorted
+   permutation, and an order supplied by numpy is used only after [arrange_pairs] has checked
+   that it is one. *)
+Theorem C19_psort_sorted_perm : forall ps, Permutation (psort ps) ps /\ sorted_by_value (psort ps).
+Proof. exact psort_sorted_perm. Qed.
+Theorem C19_arrange_pairs_sound : forall ord ps r,
+  arrange_pairs ord ps = Some r -> Permutation r ps /\ sorted_by_value r.
+Proof. exact arrange_pairs_sound. Qed.
+Theorem C19_wmedian_ord_halves : forall ps ord m,
+  nonneg_weights ps -> weighted_median_ord ps ord = Some (Some m) ->
+  (forall r, arrange_pairs ord ps = Some r -> wm_no_near_tie r) ->
+  is_weighted_median m ps.
+Proof. exact weighted_median_ord_halves. Qed.
+Theorem C19_wmedian_ord_range : forall ps ord m,
+  nonneg_weights ps -> weighted_median_ord ps ord = Some (Some m) ->
+  exists p q, In p ps /\ In q ps /\ fst p <= m <= fst q.
+Proof. exact weighted_median_ord_range. Qed.
+
 (* ========================================================================== *)
 (** * The trivial-length decorators *)
 
@@ -220,8 +267,9 @@ Theorem C19_iqr_const : forall c a, a <> [] -> (forall x, In x a -> x == c) -> i
 Proof. exact iqrQ_const. Qed.
 Theorem C19_iqr_shift : forall c a, a <> [] -> iqrQ (map (fun x => x + c) a) == iqrQ a.
 Proof. exact iqrQ_shift. Qed.
-Theorem C19_iqr_scale : forall k a, a <> [] -> 0 <= k -> iqrQ (map (fun x => k * x) a) == k * iqrQ a.
-Proof. exact iqrQ_scale_nonneg. Qed.
+(* every factor, negative ones included: the quartiles swap and change sign *)
+Theorem C19_iqr_scale : forall k a, a <> [] -> iqrQ (map (fun x => k * x) a) == Qabs k * iqrQ a.
+Proof. exact iqrQ_scale. Qed.
 
 Theorem C19_qn_nonneg : forall a, (2 <= length a)%nat -> 0 <= qn_quartileQ a /\ 0 < qn_scale (length a).
 Proof. intros a H. split; [now apply qn_quartileQ_nonneg|apply qn_scale_pos]. Qed.
@@ -268,6 +316,14 @@ Proof. exact biweight_location_core_const. Qed.
 Theorem C19_biloc_perm : forall a a', Permutation a a' ->
   biweight_location_core a None == biweight_location_core a' None.
 Proof. exact biweight_location_core_perm. Qed.
+
+(* the harness replays the loop from the code's own iterates ([biloc_chain]); on the exact
+   iterates that replay IS the loop, so what is left to the comparison is float closeness only *)
+Theorem C19_biloc_chain_exact : forall fuel c eps a i its m rs m',
+  biloc_chain fuel c eps a i its m = (rs, m') ->
+  (forall k, (S k < length rs)%nat -> nth k its 0 = nth k rs 0) ->
+  last rs i = biloc_loop fuel c eps a i i.
+Proof. exact biloc_chain_exact. Qed.
 
 Example C19_biloc_example :
   biweight_location [1; 1; 2; 2] None = Some (3 # 2) /\
@@ -351,9 +407,12 @@ Theorem C19_gapper_const : forall sqrt_pi c a, (forall x, In x a -> x == c) -> g
 Proof. exact gapper_core_const. Qed.
 Theorem C19_gapper_shift : forall sqrt_pi c a, gapper_core sqrt_pi (map (fun x => x + c) a) == gapper_core sqrt_pi a.
 Proof. exact gapper_core_shift. Qed.
-Theorem C19_gapper_scale : forall sqrt_pi k a, 0 <= k ->
-  gapper_core sqrt_pi (map (fun x => k * x) a) == k * gapper_core sqrt_pi a.
-Proof. exact gapper_core_scale. Qed.
+Theorem C19_gapper_scale : forall sqrt_pi k a,
+  gapper_core sqrt_pi (map (fun x => k * x) a) == Qabs k * gapper_core sqrt_pi a.
+Proof. exact gapper_core_scale_abs. Qed.
+(* the published formula (Wainer & Thissen 1976): sum_i i (n-i) (x_(i+1) - x_(i)) / (n (n-1)), times sqrt(pi) *)
+Theorem C19_defs_gapper : forall sqrt_pi a, gapper_core sqrt_pi a == gapperQ a * sqrt_pi.
+Proof. exact gapper_core_spec. Qed.
 
 (* weighted MAD *)
 Theorem C19_wmad_nonneg : forall ps s, ps <> [] -> nonneg_weights ps -> 0 <= weighted_mad_core ps s.
@@ -361,6 +420,25 @@ Proof. exact weighted_mad_core_nonneg. Qed.
 Theorem C19_wmad_const : forall ps s c, ps <> [] -> nonneg_weights ps ->
   (forall p, In p ps -> fst p == c) -> weighted_mad_core ps s == 0.
 Proof. exact weighted_mad_core_const. Qed.
+(* unchanged by a shift; proportional under every non-negative factor -- any non-negative weights *)
+Theorem C19_wmad_shift : forall c ps s, ps <> [] -> nonneg_weights ps ->
+  weighted_mad_core (shift_values c ps) s == weighted_mad_core ps s.
+Proof. exact weighted_mad_core_shift. Qed.
+Theorem C19_wmad_scale : forall k ps s, 0 <= k -> ps <> [] -> nonneg_weights ps ->
+  weighted_mad_core (scale_values k ps) s == k * weighted_mad_core ps s.
+Proof. exact weighted_mad_core_scale_nonneg. Qed.
+(* every factor (|k|), when all weights are strictly positive and neither weighted median sits on a near-tie *)
+Theorem C19_wmad_scale_positive : forall k ps s, pos_weights ps -> ps <> [] ->
+  wm_no_near_tie (psort ps) -> wm_no_near_tie (psort (scale_values k ps)) ->
+  weighted_mad_core (scale_values k ps) s == Qabs k * weighted_mad_core ps s.
+Proof. exact weighted_mad_core_scale_positive. Qed.
+(* ... and NOT for a negative factor when a zero weight sits on the tie: finding
+   wmad-negative-scale-zero-weight-tie (real code: weighted_mad([0,0,1,2],[2,0,2,0]) = 0.0,
+   weighted_mad([0,0,-1,-2],[2,0,2,0]) = 0.7413) *)
+Lemma C19_wmad_scale_neg_refuted :
+  exists ps, nonneg_weights ps /\ 0 < wtotal ps /\
+             ~ weighted_mad_core (scale_values (-1) ps) false == Qabs (-1) * weighted_mad_core ps false.
+Proof. exact wmad_scale_neg_refuted. Qed.
 
 (* biweight midvariance, squared: Tukey's formula (c = 9) about the biweight location; the
    scaled MAD (1.4826 MAD)^2 only when no kept point deviates from the centre at all *)
@@ -400,3 +478,120 @@ Example C19_savgol_weighted_zero_window :
   exists y, savgol_w [1; 5; 2; 8; 3; 9; 4; 7; 6; 0] [1; 1; 1; 0; 0; 0; 0; 0; 0; 0] (Some 7) 0 7 3 1
               [-2 # 21; 3 # 21; 6 # 21; 7 # 21; 6 # 21; 3 # 21; -2 # 21] = inl y /\ In None y.
 Proof. eexists. split; [vm_compute; reflexivity|]. cbn. tauto. Qed.
+
+(* ========================================================================== *)
+(** * Smoothers, characterised *)
+
+(* rolling median: every output is the median of the 2 wing + 1 values around it, the signal
+   being reflected at both ends -- for every accepted width (every wing >= 1, every n > wing) *)
+Theorem C19_rolling_median_is_median : forall x width o y, rolling_median x width o = inl y ->
+  ((length x < 2)%nat /\ y = x) \/
+  (exists wing, width2wing (Z.of_nat (length x)) width o = WingOk (Z.of_nat wing) /\ (1 <= wing < length x)%nat /\
+     length y = length x /\ forall i, (i < length x)%nat -> nthq i y = median (mirrored_window x wing i)).
+Proof. exact rolling_median_is_median. Qed.
+
+(* Kaiser (any window): every output is the same linear combination of its mirrored window;
+   the coefficients are non-negative and sum to 1 when the window is non-negative *)
+Theorem C19_kaiser_convex : forall x width o window y, kaiser x width o window = inl y -> (2 <= length x)%nat ->
+  exists wing, width2wing (Z.of_nat (length x)) width o = WingOk (Z.of_nat wing) /\ (1 <= wing < length x)%nat /\
+    length window = (2 * wing + 1)%nat /\ length y = length x /\
+    (forall i, (i < length x)%nat -> nthq i y = qdot (rev (normalize window)) (mirrored_window x wing i)) /\
+    (0 < qsum window -> (forall c, In c window -> 0 <= c) ->
+       qsum (rev (normalize window)) == 1 /\ forall c, In c (rev (normalize window)) -> 0 <= c).
+Proof. exact kaiser_convex. Qed.
+
+Example C19_mirrored_window_example :
+  mirrored_window [1; 2; 3; 4; 5] 2 0 = [2; 1; 1; 2; 3] /\ mirrored_window [1; 2; 3; 4; 5] 2 4 = [3; 4; 5; 5; 4] /\
+  mirrored_window [1; 2; 3; 4; 5] 1 2 = [2; 3; 4].
+Proof. vm_compute. repeat split. Qed.
+
+(* Savitzky-Golay with weights, one pass: the i-th output is finite exactly when the windowed,
+   coefficient-weighted sum N of the (mirrored, rolled-off) weights at that position is not 0 --
+   the precise boundary of the open finding savgol-weighted-zero-window *)
+Theorem C19_savgol_weighted_finite_iff : forall x w wing coeffs i,
+  length x = length w -> (wing <= length x)%nat -> (i < length x)%nat ->
+  (exists v, nth i (savgol_weighted x w wing 1 coeffs) None = Some v) <->
+  ~ nthq (i + wing) (conv_same (normalize coeffs) (pad_weights w wing)) == 0.
+Proof. exact savgol_weighted_finite_iff. Qed.
+(* any number of passes, through the function itself: the non-finite positions are those of the
+   mask recursion (N = 0 at this pass, or a non-finite value under the window of the pass before) *)
+Theorem C19_savgol_weighted_nonfinite : forall x w tw o ww ord it coeffs y,
+  savgol_w x w tw o ww ord it coeffs = inl y -> (2 <= length x)%nat ->
+  exists p, savgol_plan (Z.of_nat (length x)) tw o ww ord it = inl p /\
+    map is_none y =
+    unpad (nonfinite_mask (Z.to_nat (sg_iter p)) (normalize coeffs)
+             (repeat false (length x + 2 * Z.to_nat (sg_wing p)))
+             (pad_weights w (Z.to_nat (sg_wing p)))) (Z.to_nat (sg_wing p)).
+Proof. exact savgol_w_nonfinite. Qed.
+(* the finding's region: all weights under a window are 0 => N = 0 there, whatever the coefficients *)
+Theorem C19_zero_window_nonfinite : forall win (w : list Q) j, (j < length w)%nat ->
+  (forall v, In v (firstn (length win) (skipn j (repeat 0 (length win - 1 - Nat.div (length win) 2) ++ w
+                               ++ repeat 0 (Nat.div (length win) 2)))) -> v == 0) ->
+  nthq j (conv_same win w) == 0.
+Proof. exact zero_window_nonfinite. Qed.
+
+(* ========================================================================== *)
+(** * Source ties: statements of descriptives.py / smoothing.py translated by tools/py2v_fn.py
+      (Gen/FnDescriptives.v, Gen/FnSmoothing.v) equal the model's step functions *)
+
+(* biweight_location.biloc_iter: w = d / max(c*mad, epsilon); mask = |w| < 1; w = (1 - w**2)**2 per element ... *)
+Theorem C19_source_biloc_weight : forall c eps a initial,
+  let d := sub_all initial a in
+  let mad := median (abs_all d) in
+  Forall2 pair_rel (biloc_masked c eps a initial)
+    (map (fun di => (di, snd (fn_biloc_weight di mad c eps)))
+         (filter (fun di => fst (fn_biloc_weight di mad c eps)) d)).
+Proof. exact fn_biloc_masked. Qed.
+(* ... and the update: initial if the kept weights sum to 0, else initial + sum(d w) / sum(w) *)
+Theorem C19_source_biloc_update : forall c eps a initial,
+  let dw := biloc_masked c eps a initial in
+  biloc_iter c eps a initial == fn_biloc_update (qsum (map snd dw)) (qdot (map fst dw) (map snd dw)) initial.
+Proof. exact fn_biloc_iter. Qed.
+(* biweight_midvariance: w = d / max(c*mad, epsilon); mask = |w| < 1 per element *)
+Theorem C19_source_bivar_weight : forall c eps (d : list Q),
+  let mad := median (abs_all d) in
+  let scale := qmax2 (qmul c mad) eps in
+  Forall2 pair_rel
+    (filter (fun p => qlt_b (qabs (snd p)) BIVAR_MASK_BOUND) (combine d (map (fun di => qdiv di scale) d)))
+    (map (fun di => (di, fst (fn_bivar_weight di mad c eps)))
+         (filter (fun di => snd (fn_bivar_weight di mad c eps)) d)).
+Proof. exact fn_bivar_masked. Qed.
+(* weighted_median: midpoint, rounding allowance, and the decision at the index the search stops at *)
+Theorem C19_source_wm_midpoint_tolerance : forall ps,
+  fn_wm_midpoint (qsum (map snd ps)) == qmul WMEDIAN_HALF (qsum (map snd ps)) /\
+  fn_wm_tolerance (Z.of_nat (length ps)) WMEDIAN_TOL_EPS (qsum (map snd ps)) == wmed_tol ps.
+Proof. intro ps. split; [apply fn_wm_midpoint_eq|apply fn_wm_tolerance_eq]. Qed.
+Theorem C19_source_wm_pick : forall mid tol acc (pre : list (Q * Q)) v w rest,
+  qle_b (qsub mid tol) (qadd acc w) = true ->
+  wmed_walk mid tol acc ((v, w) :: rest) =
+  fn_wm_pick (Z.of_nat (length pre)) (Z.of_nat (length (pre ++ (v, w) :: rest))) (qadd acc w) mid tol
+             (match rest with (v2, _) :: _ => qdiv (qadd v v2) 2 | [] => v end) v.
+Proof. exact fn_wm_pick_eq. Qed.
+(* `if scale_to_sd: mad *= 1.4826` of median_absolute_deviation and weighted_mad *)
+Theorem C19_source_mad_scale : forall a s mad,
+  mad_core a s == fn_mad_scale (median (abs_all (sub_all (median a) a))) s /\
+  wmad_scale s mad == fn_wmad_scale mad s.
+Proof. intros a s mad. split; [apply fn_mad_scale_eq|apply fn_wmad_scale_eq]. Qed.
+(* mean_squared_error: `if initial: a = a - initial` per element *)
+Theorem C19_source_mse_centre : forall a initial,
+  mse_core a initial == qmean (map (fun x => qsq (fn_mse_centre x initial)) a).
+Proof. exact fn_mse_centre_eq. Qed.
+Theorem C19_source_qn_result : forall a,
+  qn_core a == fn_qn_result (percentile QN_PCT (pair_diffs a)) (qn_scale (length a)).
+Proof. exact fn_qn_result_eq. Qed.
+(* _width2wing: the three arithmetic fragments under the model's dispatch *)
+Theorem C19_source_width2wing : forall n width fo,
+  let clamp w0 := if (WING_ASSERT_MIN <=? fn_wing_clamp w0 MIN_WING n)%Z
+                  then WingOk (fn_wing_clamp w0 MIN_WING n) else WingAssert in
+  width2wing n width fo =
+  if qlt_b 0 width && qlt_b width 1 then
+    if (Z.abs (fo - fn_wing_frac n width) <=? 1)%Z then clamp fo else WingOracleBad
+  else if qle_b WIDTH_INT_MIN width && is_integer_q width then clamp (fn_wing_int n (Qfloor width))
+  else WingValueError.
+Proof. exact fn_width2wing. Qed.
+Theorem C19_source_guess_window_size : forall n sd pow45, fn_guess_width sd pow45 n = guess_window_size n sd pow45.
+Proof. exact fn_guess_width_eq. Qed.
+Theorem C19_source_savgol_params : forall wing ww ord,
+  fn_savgol_params wing ww ord =
+  (sg_window (savgol_params wing ww ord), sg_order (savgol_params wing ww ord), sg_iter (savgol_params wing ww ord)).
+Proof. exact fn_savgol_params_eq. Qed.
